@@ -45,3 +45,26 @@ Theorem C05_trace_simulation : forall (D R : Type) (c : config D R) i c',
   trans_ok true (phase_of (c_pc (cl c i))) (step_tag c i) (phase_of (c_pc (cl c' i))) = true.
 Proof. exact step_is_transition. Qed.
 Print Assumptions C05_trace_simulation.
+
+From DC Require Import Val DiskBase SqlBase Gen_Disk Disk Gen_Sql Cache Refs SinvFacts Txn TxnFacts.
+
+(* the hypotheses are discharged for the real transaction bodies (set, add, delete/__delitem__, pop, touch,
+   incr on inline values; lock-free get and contains) of model/Cache.v: in every configuration reachable by
+   any schedule with kills of any programs made of these calls, from the empty cache, the machine invariant
+   holds, the committed table satisfies the row-level invariant and every referenced file is complete *)
+Theorem C05_cache_invariant : forall c (progs : nat -> list call) sched,
+  Inv refs Winv (exec (init_config init_st (fun i => map (compile c) (progs i))) sched).
+Proof. exact cache_inv. Qed.
+Print Assumptions C05_cache_invariant.
+
+Theorem C05_cache_files_complete : forall c progs sched,
+  let cf := exec (init_config init_st (fun i => map (compile c) (progs i))) sched in
+  Winv (db cf) /\ (forall g, In g (refs (db cf)) -> files cf g = FDone).
+Proof. exact cache_committed_files_complete. Qed.
+Print Assumptions C05_cache_files_complete.
+
+(* a call of the machine run without interleaving is exactly the sequential model's call (which is compared
+   with the implementation after every call): the concurrent model refines to the validated sequential one *)
+Theorem C05_sequential_equivalence : forall c x s, Winv s -> call_side c x s -> call_run c x s = call_step c x s.
+Proof. exact call_run_is_step. Qed.
+Print Assumptions C05_sequential_equivalence.
